@@ -29,6 +29,29 @@ theorem C06_open (s s2 : Store) (l : LH) (it : Iter) (ha : s.autocommit = true) 
     it.finished = false ∧ it.cid = l.cid ∧ it.loopNum = l.loopNum :=
   getPackets_ok s s2 l it ha h
 
+/-- every iterator handed out in a state satisfying the store invariant (so: in every reachable state, `C04_inv_reachable`) is
+    well formed — the hypothesis `Iter.WF` of the theorems below is discharged — and the items it names exist -/
+theorem C06_open_wf (s s2 : Store) (l : LH) (it : Iter) (hinv : InvS s) (h : getPackets s l = (s2, .ok it)) :
+    it.WF ∧ ∀ k ∈ it.names, s2.db.hasItem it.cid k = true := by
+  refine ⟨getPackets_wf s s2 l it hinv.db h, ?_⟩
+  have hi := getPackets_items s s2 l it h
+  have hdb : s2.db = s.db := by
+    unfold getPackets at h
+    have hsame := getNames_same s l
+    split at h
+    · cases h
+    · rename_i s1 names he
+      rw [he] at hsame
+      split at h
+      · cases h
+      · rename_i s2' hb
+        obtain ⟨_, hs2⟩ := begin_autocommit s1 s2' hb
+        split at h
+        · cases h
+        · simp only [Prod.mk.injEq] at h
+          rw [← h.1, hs2]; exact hsame.1
+  rw [hdb]; exact hi
+
 /-- no packets ⇒ CIF_EMPTY_LOOP, no items (the loop does not exist) ⇒ CIF_INVALID_HANDLE; nothing stays open -/
 theorem C06_open_refused (s : Store) (l : LH) (ha : s.autocommit = true) :
     (s.db.loopItems l.cid l.loopNum = [] → getPackets s l = (s, .error CIF_INVALID_HANDLE)) ∧
